@@ -112,13 +112,13 @@ Section Acyclic.
       injection Esg as Esg'.
       (* the producing task *)
       assert (GT : (match sg_task sg with
-                    | Some t => do r <- hv H cs h look f (m :: st) (VRef t); Ok (TASK_ID :: fst r, snd r)
+                    | Some t => do r <- hv H cs h look f (m :: st) (VRef t); Ok (tmark (m :: st) t (fst r), snd r)
                     | None => Ok ([], 0) end)
                  = (match sg_task sg with
-                    | Some t => do r <- hv H cs h look f (m :: st') (VRef t); Ok (TASK_ID :: fst r, snd r)
+                    | Some t => do r <- hv H cs h look f (m :: st') (VRef t); Ok (tmark (m :: st') t (fst r), snd r)
                     | None => Ok ([], 0) end) /\
                    forall b e, (match sg_task sg with
-                    | Some t => do r <- hv H cs h look f (m :: st) (VRef t); Ok (TASK_ID :: fst r, snd r)
+                    | Some t => do r <- hv H cs h look f (m :: st) (VRef t); Ok (tmark (m :: st) t (fst r), snd r)
                     | None => Ok ([], 0) end) = Ok (b, e) -> e = 0).
       { destruct (sg_task sg) as [t|] eqn:Et; [|split; [reflexivity|intros b e E; inversion E; reflexivity]].
         assert (Ht : t < m).
@@ -127,7 +127,10 @@ Section Acyclic.
           apply Nat.eqb_neq in Eq. specialize (Ot t eq_refl). lia. }
         destruct (IH m (m :: st) (m :: st') (VRef t)) as [E1 Z1]; try assumption.
         { intros q [<-|[]]. exact Ht. }
-        rewrite <- E1. split; [reflexivity|].
+        assert (M1 : index_of t (m :: st) = None) by (apply index_of_none; intros Hin; specialize (A1 t Hin); lia).
+        assert (M2 : index_of t (m :: st') = None) by (apply index_of_none; intros Hin; specialize (A2 t Hin); lia).
+        rewrite <- E1. split; [destruct (hv H cs h look f (m :: st) (VRef t)) as [r|]; cbn [bind]; [|reflexivity];
+                               rewrite (tmark_none _ _ _ M1), (tmark_none _ _ _ M2); reflexivity|].
         intros b e E. destruct (hv H cs h look f (m :: st) (VRef t)) as [[b1 e1]|] eqn:R1; cbn [bind] in E; [|discriminate].
         pose proof (Z1 b1 e1 eq_refl) as Z0. inversion E. subst. reflexivity. }
       destruct GT as [ET ZT]. rewrite <- ET.
@@ -168,10 +171,10 @@ Section Acyclic.
     destruct (getclass cs (n_cls x)) as [c|]; cbn [bind] in Esg; [|discriminate].
     destruct (Hord n x Ex) as [Of Ot]. injection Esg as Esg'.
     assert (ET : (match sg_task sg with
-                  | Some t => do r <- hv H cs h look (S fuel) (n :: st) (VRef t); Ok (TASK_ID :: fst r, snd r)
+                  | Some t => do r <- hv H cs h look (S fuel) (n :: st) (VRef t); Ok (tmark (n :: st) t (fst r), snd r)
                   | None => Ok ([], 0) end)
                = (match sg_task sg with
-                  | Some t => do r <- hv H cs h look (S fuel) [n] (VRef t); Ok (TASK_ID :: fst r, snd r)
+                  | Some t => do r <- hv H cs h look (S fuel) [n] (VRef t); Ok (tmark [n] t (fst r), snd r)
                   | None => Ok ([], 0) end)).
     { destruct (sg_task sg) as [t|] eqn:Et; [|reflexivity].
       assert (Ht : t < n).
@@ -180,7 +183,11 @@ Section Acyclic.
         apply Nat.eqb_neq in Eq. specialize (Ot t eq_refl). lia. }
       destruct (hv_ctx_independent (S fuel) n (n :: st) [n] (VRef t)) as [E1 _]; try assumption.
       { intros q [<-|[]]. exact Ht. }
-      rewrite E1. reflexivity. }
+      rewrite E1. destruct (hv H cs h look (S fuel) [n] (VRef t)) as [r|]; cbn [bind]; [|reflexivity].
+      rewrite (tmark_same_index (n :: st) [n] t); [reflexivity|].
+      rewrite (index_of_none t (n :: st)), (index_of_none t [n]); [reflexivity| |].
+      - intros Hin. specialize (A2 t Hin). lia.
+      - intros Hin. specialize (A1 t Hin). lia. }
     rewrite ET.
     rewrite (seq_list_ext (hsel (hv H cs h look (S fuel) (n :: st))) (hsel (hv H cs h look (S fuel) [n]))); [reflexivity|].
     intros [kk sel] Hp. unfold hsel. cbn [snd fst]. destruct sel as [| |v]; try reflexivity.
